@@ -81,6 +81,64 @@ func (vm *VM) runeCount(bs []Value) int {
 	return n
 }
 
+// decodeRunes is the exact UTF-8 decoder over possibly symbolic bytes: one rune
+// value (int64 or term) per decoded character, U+FFFD for every invalid byte.
+func (vm *VM) decodeRunes(bs []Value) []Value {
+	var out []Value
+	i := 0
+	tm := func(v Value) *smt.Term { return toTerm(v) }
+	for i < len(bs) {
+		b := bs[i]
+		if vm.inRange(b, 0x00, 0x7F) {
+			out = append(out, b)
+			i++
+			continue
+		}
+		size := 0
+		lo2, hi2 := int64(0x80), int64(0xBF)
+		switch {
+		case vm.inRange(b, 0xC2, 0xDF):
+			size = 2
+		case vm.inRange(b, 0xE0, 0xE0):
+			size, lo2 = 3, 0xA0
+		case vm.inRange(b, 0xE1, 0xEC):
+			size = 3
+		case vm.inRange(b, 0xED, 0xED):
+			size, hi2 = 3, 0x9F
+		case vm.inRange(b, 0xEE, 0xEF):
+			size = 3
+		case vm.inRange(b, 0xF0, 0xF0):
+			size, lo2 = 4, 0x90
+		case vm.inRange(b, 0xF1, 0xF3):
+			size = 4
+		case vm.inRange(b, 0xF4, 0xF4):
+			size, hi2 = 4, 0x8F
+		}
+		ok := size > 0 && i+size <= len(bs) && vm.inRange(bs[i+1], lo2, hi2)
+		for k := 2; ok && k < size; k++ {
+			ok = vm.inRange(bs[i+k], 0x80, 0xBF)
+		}
+		if !ok {
+			out = append(out, int64(0xFFFD))
+			i++
+			continue
+		}
+		var r *smt.Term
+		switch size {
+		case 2:
+			r = smt.Add(smt.Mul(smt.Sub(tm(b), smt.Int64(0xC0)), smt.Int64(64)), smt.Sub(tm(bs[i+1]), smt.Int64(0x80)))
+		case 3:
+			r = smt.Add(smt.Add(smt.Mul(smt.Sub(tm(b), smt.Int64(0xE0)), smt.Int64(4096)), smt.Mul(smt.Sub(tm(bs[i+1]), smt.Int64(0x80)), smt.Int64(64))), smt.Sub(tm(bs[i+2]), smt.Int64(0x80)))
+		case 4:
+			r = smt.Add(smt.Add(smt.Add(smt.Mul(smt.Sub(tm(b), smt.Int64(0xF0)), smt.Int64(262144)), smt.Mul(smt.Sub(tm(bs[i+1]), smt.Int64(0x80)), smt.Int64(4096))),
+				smt.Mul(smt.Sub(tm(bs[i+2]), smt.Int64(0x80)), smt.Int64(64))), smt.Sub(tm(bs[i+3]), smt.Int64(0x80)))
+		}
+		out = append(out, fromIntTerm(r, 32, true))
+		i += size
+	}
+	return out
+}
+
 func registerUTF8(vm *VM) {
 	vm.intrinsics["unicode/utf8.RuneCountInString"] = func(vm *VM, _ *frame, a []Value) Value {
 		if s, ok := a[0].(string); ok {
